@@ -1,6 +1,7 @@
 import SkgVerif.Model.Fit
 import SkgVerif.Gen.Views
 import Mathlib.Tactic
+import SkgVerif.Props.Transcribed.C04
 /-!
 # C04 — all views of a fitted variogram describe one and the same function
 
